@@ -217,7 +217,7 @@ func genMem(r *rand.Rand, p float64, zeroLimit bool) MemJ {
 
 func genShape(r *rand.Rand) ShapeJ {
 	b := func() bool { return r.Intn(2) == 0 }
-	return ShapeJ{b(), b(), b(), b(), b(), r.Intn(4) == 0}
+	return ShapeJ{b(), b(), b(), b(), b(), r.Intn(4) == 0, b(), false}
 }
 
 // genSpec: a spec inside the property's domain (NAME=value env entries with distinct
@@ -677,7 +677,7 @@ func systematic(seed int64) []namedIn {
 		for _, sp := range []struct {
 			tag  string
 			spec SpecJ
-		}{{"base", baseSpec()}, {"empty", SpecJ{Shape: ShapeJ{true, true, true, true, true, false}}}, {"rand", genSpec(r)}} {
+		}{{"base", baseSpec()}, {"empty", SpecJ{Shape: ShapeJ{true, true, true, true, true, false, false, false}}}, {"nolinux", SpecJ{Shape: ShapeJ{true, true, true, true, true, false, true, false}}}, {"nolinux-raw", SpecJ{Shape: ShapeJ{true, true, true, true, true, true, true, false}}}, {"rand", genSpec(r)}} {
 			a := emptyAdj()
 			res := &ResJ{Hugepages: []HugeJ{}}
 			a.Linux = &LinuxJ{Devices: []DeviceJ{}, Resources: res}
@@ -768,7 +768,9 @@ func optionCases() []namedIn {
 					a3 := full()
 					a3.Linux.Resources = &ResJ{Hugepages: []HugeJ{}}
 					add("emptyres-"+id, baseSpec(), a3, e)
-					add("emptyres-emptyspec-"+id, SpecJ{Shape: ShapeJ{true, true, true, true, true, false}}, a3, e)
+					add("emptyres-emptyspec-"+id, SpecJ{Shape: ShapeJ{true, true, true, true, true, false, false, false}}, a3, e)
+					add("emptyres-nolinux-"+id, SpecJ{Shape: ShapeJ{true, true, true, true, true, false, true, false}}, a3, e)
+					add("emptyres-nolinux-raw-"+id, SpecJ{Shape: ShapeJ{true, true, true, true, true, true, true, false}}, a3, e)
 					// an earlier failure (CDI): the checker must not run; a later one (block-I/O class): it has run
 					a4 := full()
 					a4.CDI = []string{"vendor.com/dev=broken"}
